@@ -28,7 +28,9 @@ def make_opcode_variable_list() -> list[tuple[str, int, Callable[..., Any], Call
             try:
                 size = struct.unpack(struct_data, script[pc : pc + struct_size])[0]
             except Exception:
-                return 0, pc
+                # truncated length field: report a size the script cannot satisfy,
+                # so the caller flags the push as malformed
+                return len(script), pc
             pc += struct_size
             return size, pc
 
